@@ -214,6 +214,14 @@ pub fn gen(rng: &mut ChaCha20Rng, n: usize, thorough: bool) -> Vec<Case> {
         scripts.push(s);
     }
     for s in &scripts { out.push(mk(format!("C10 script {}", hexd(s)), &["ep:Script-instructions-asm-templates", if s.len() <= 2 { "src:enumerated" } else { "src:random-bytes" }], true)); }
+    // witness-program shapes: every version opcode (OP_0, OP_1..OP_16) and the neighbours 0x4f / 0x61, every program length 0..=42 (templates, asm,
+    // Address::from_script must stay total on the non-standard ones: v0 with a length other than 20 / 32, programs shorter than 2 or longer than 40)
+    for ver in [0x00u8, 0x4f, 0x51, 0x52, 0x53, 0x54, 0x55, 0x56, 0x57, 0x58, 0x59, 0x5a, 0x5b, 0x5c, 0x5d, 0x5e, 0x5f, 0x60, 0x61] {
+        for l in 0..=42usize {
+            let mut sc = vec![ver, l as u8]; sc.extend(rbytes(rng, l));
+            out.push(mk(format!("C10 script {}", hexd(&sc)), &["ep:Script-instructions-asm-templates", "src:witness-program-shapes"], true));
+        }
+    }
     // truncated pushes: every push form x declared length (small and boundary) x every cut from "opcode only" to "complete + 1"
     // (all cuts for short pushes; for long ones the cuts inside / right after the length field and within 3 bytes of the end), alone and
     // after a valid prefix; the OP_RETURN prefixes also go through is_null_data / is_pegout / pegout_data
